@@ -357,7 +357,7 @@ func redactPipelineStage(stage interface{}, redactFieldNames bool, keyPath []str
 							isSelectivelyRedactable := isRedactableFieldPatternInArray(vTyped)
 							newMap.Set(redactedKey, redactArrayValues(vTyped, redactFieldNames, inSearchStage, isSelectivelyRedactable, newKeyPath))
 						default:
-							newMap.Set(redactedKey, redactScalarValue([]string{k}, v, inSearchStage, false))
+							newMap.Set(redactedKey, redactScalarValue(newKeyPath, v, inSearchStage, false))
 						}
 					} else if vMap, ok := v.(*orderedmap.OrderedMap[string, any]); ok {
 						// A document in a field-name position is an expression / specification
@@ -446,7 +446,7 @@ func redactPipelineStage(stage interface{}, redactFieldNames bool, keyPath []str
 											isSelectivelyRedactable := isRedactableFieldPatternInArray(subVTyped)
 											newSubMap.Set(subK, redactArrayValues(subVTyped, redactFieldNames, inSearchStage, isSelectivelyRedactable, append(newKeyPath, subK)))
 										default:
-											newSubMap.Set(subK, redactScalarValue([]string{k}, subV, inSearchStage, false))
+											newSubMap.Set(subK, redactScalarValue(append(newKeyPath, subK), subV, inSearchStage, false))
 										}
 									} else if subVMap, ok := subV.(*orderedmap.OrderedMap[string, any]); ok {
 										newSubMap.Set(subK, redactPipelineStage(subVMap, redactFieldNames, append(newKeyPath, subK), inSearchStage))
@@ -504,7 +504,7 @@ func redactPipelineStage(stage interface{}, redactFieldNames bool, keyPath []str
 							isSelectivelyRedactable := isRedactableFieldPatternInArray(subVTyped)
 							newSubMap.Set(redactedSubK, redactArrayValues(subVTyped, redactFieldNames, inSearchStage, isSelectivelyRedactable, append(newKeyPath, subK)))
 						default:
-							newSubMap.Set(redactedSubK, redactScalarValue([]string{k}, subV, inSearchStage, false))
+							newSubMap.Set(redactedSubK, redactScalarValue(append(newKeyPath, subK), subV, inSearchStage, false))
 						}
 					}
 					newMap.Set(redactedKey, newSubMap)
@@ -626,7 +626,13 @@ func redactArrayValuesWithKey(parentKey string, arr []any, redactFieldNames bool
 						arr[i] = item
 					}
 				} else {
-					arr[i] = redactScalarValue([]string{parentKey}, item, isSearchStage, isSelectivelyRedactable)
+					// Pass the whole key path (it ends with the array's own key) so that
+					// selective redaction sees every ancestor name
+					scalarPath := keyPath
+					if len(scalarPath) == 0 {
+						scalarPath = []string{parentKey}
+					}
+					arr[i] = redactScalarValue(scalarPath, item, isSearchStage, isSelectivelyRedactable)
 				}
 			}
 		}
